@@ -210,6 +210,34 @@ class Stream:
             ep.apply(("getmsgs",))
         return accepted
 
+
+    # ---- an UNAUTHENTIC variant of datagram idx reaches the receiver (attacker: mangled replay)
+    def inject_mangled(self, idx, mode, delta=0):
+        run = self.run
+        raw = bytearray(self.net.emitted[self.sender][idx]["raw"])
+        if mode == "seq":          # header sequence number rewritten (the header is authenticated: the tag no longer matches)
+            raw[8:10] = struct.pack(">H", wire(self.true_n(idx) + delta))
+        elif mode == "tag":
+            raw[-1] ^= 0x01
+        else:
+            raw[min(len(raw) - 1, 23)] ^= 0x40
+        ep = self.net.ep(self.receiver)
+        impl, conn = ep.impl, ep.impl.conn
+        before = P1.snap(impl)
+        dropped0 = conn.stats.dropped
+        outs = ep.apply(("recv", self.net.t, bytes(raw), [7]))
+        ret = [o[1] for o in outs if o[0] == 2]
+        after = P1.snap(impl)
+        run.evaluations += 1
+        self.mangled = getattr(self, "mangled", 0) + 1
+        if not (before == after and conn.stats.dropped == dropped0 + 1 and ret == [0] and not conn.incoming_messages):
+            run.oracle_violation("unauthentic datagram changed the receiver",
+                                 {"direction": "%s->%s" % (self.sender, self.receiver), "start": list(self.start),
+                                  "scenario": self.label, "mode": mode, "delta": delta, "datagram_index": self.true_n(idx),
+                                  "diff": P1.first_diff(before, after)}, "ConnectionBase._recv_datagram")
+        if conn.incoming_messages:
+            ep.apply(("getmsgs",))
+
     # ---- closing: correspondence
     def finish(self):
         run = self.run
@@ -393,6 +421,37 @@ def sc_random(run, rng, sender, start, steps, max_delay, p_dup, p_replay):
 STARTS = [(0, 0), (65535 - 20, 65535 - 150), (65535 - 3, 65535 - 2), (65500, 65535 - 300)]
 
 
+def sc_mangled(run, rng, sender, start, g, per):
+    """genuine traffic; then mangled (unauthentic) copies whose header names a sequence number far ahead / behind /
+    equal; then verbatim replays of everything: the mangled copies must change nothing, the replays must be dropped
+    exactly as if the mangled copies had never arrived"""
+    st = Stream(run, rng, sender, start[0], start[1], "mangled copies then replays g=%d" % g)
+    allidx = []
+    st.advance()
+    st.app_send(12)
+    for i in range(g):
+        st.advance()
+        for _ in range(per):
+            st.app_send(rng.choice([9, 10, 17]))
+        new = st.tick_sender()
+        for idx in new:
+            st.deliver(idx)
+            if rng.random() < 0.3:
+                st.inject_mangled(idx, rng.choice(["tag", "body"]))
+        allidx += new
+        st.tick_receiver()
+    last = allidx[-1]
+    for delta in (0, 1, 33, 40, 300, 20000, -1, -33, -300):
+        st.inject_mangled(last, "seq", delta)
+    st.inject_mangled(allidx[0], "seq", 5000)
+    st.advance(30)
+    for idx in allidx:
+        st.deliver(idx, "replay after mangled")
+    st.tick_receiver()
+    st.finish()
+    return st
+
+
 def run(run):
     logging.disable(logging.CRITICAL)
     OUTSIDE_RECORDS[0] = 0
@@ -412,6 +471,8 @@ def run(run):
             streams.append(sc_replay(run, rng, sender, start, 33, 8, frag=True, label="fragmented, 264 newer messages"))
             streams.append(sc_replay(run, rng, sender, start, 20, 3, frag=True, label="fragmented, inside"))
             streams.append(sc_immediate(run, rng, sender, start, 60 if thorough else 25))
+            streams.append(sc_mangled(run, rng, sender, start, 12, 2))
+            streams.append(sc_mangled(run, rng, sender, start, 3, 100))
             streams.append(sc_retransmit(run, rng, sender, start, 40, 4))
             streams.append(sc_retransmit(run, rng, sender, start, 300, 12))
             for _ in range(12 if thorough else 2):
@@ -424,6 +485,7 @@ def run(run):
     run.count("datagram_copies_delivered", copies)
     run.count("copies_inside_datagram_window", dup_in)
     run.count("message_copies_inside_window", sum(1 for s in streams for f in s.gm.flags if f))
+    run.count("unauthentic_copies_injected", sum(getattr(s, "mangled", 0) for s in streams))
     run.count("payloads_delivered_once", sum(1 for s in streams for v in s.count.values() if v == 1))
     run.count("payloads_delivered_more_than_once", sum(1 for s in streams for v in s.count.values() if v > 1))
     if dup_in == 0:
